@@ -155,6 +155,23 @@ pub fn run_c05(a: &Args) {
     out.finish(&st);
 }
 
+/// the write half FAILS in the middle of a keep-alive reply (after 0..3 of its 4 bytes: would-block, reset, broken pipe): whatever the
+/// connection then reports, a keep-alive is handed to the caller only once its whole reply has been written - an error is never swallowed
+/// with a truncated reply left on the transport for the caller's next frame to land behind
+fn reply_failure_cases(prop: &str, rt: &tokio::runtime::Runtime, st: &mut Stats) {
+    for compressed in [true, false] { for imp in ["B", "A"] { for taken in 0..4usize { for kind in [0u8, 2, 3] { for later_ok in [false, true] {
+        st.evaluations += 1; st.bump("write failure inside a keep-alive reply");
+        let ka = raw_frame(compressed, 3, 0, &[0]); let other = raw_frame(compressed, 3, 7, &[4]);
+        let fr = Frames::new(compressed, vec![ka.clone(), other.clone()]); let idx = RepIndex::new(&fr);
+        let mut ws: Vec<WEv> = vec![]; if taken > 0 { ws.push(WEv::Accept(taken - 1)); } ws.push(WEv::Fail(kind)); if !later_ok { ws.push(WEv::Fail(kind)); ws.push(WEv::Fail(kind)); }
+        let evs = vec![REv::Data(fr.stream()), REv::Eof];
+        let (trace, _) = if imp == "B" { session_blocking(&fr, &idx, false, &evs, &ws, 6) } else { session_async(rt, &fr, &idx, false, &evs, &ws, 6) };
+        let mut written: Vec<u8> = vec![]; let mut bad: Option<String> = None;
+        for t in &trace { if let Some(h) = t.strip_prefix('W') { written.extend(unhex(h)); } else if t == "P0" { if written.len() < 4 || written[..4] != ka[..] { bad = Some(format!("the keep-alive is handed to the caller while the transport holds {} of its reply", if written.is_empty() { "nothing".to_string() } else { hex(&written) })); } break; } }
+        if let Some(w) = bad { st.fail(format!("[{prop} {}] {w} (the write half took {taken} byte(s), then failed with {:?}); results {:?}", if imp == "B" { "blocking" } else { "tokio" }, KINDS[kind as usize], trace), format!("kafail {imp} {} {taken} {kind} {}", mode_tag(compressed), later_ok as u8)); }
+    } } } } }
+}
+
 // ---------------------------------------------------------------- C07
 pub fn run_c07(a: &Args) {
     if let Some(r) = &a.replay { std::process::exit(replay_session("C07", r)); }
@@ -228,6 +245,7 @@ pub fn run_c07(a: &Args) {
             }
         }
     }
+    reply_failure_cases("C07", &run.rt, &mut st);
     // direct check of maybe_pong on typed packets: every kind's default value
     for p in crate::gen::kinds::default_packets() {
         st.evaluations += 1;
@@ -246,6 +264,12 @@ pub fn run_c07(a: &Args) {
         if handed != sent || replies != sent || others != 0 { st.fail(format!("[C07 websocket] {sent} keep-alives sent (among packets that are not keep-alives), {handed} handed to the caller, the peer received {replies} reply messages and {others} other messages"), format!("wska {} {n}", mode_tag(compressed))); }
         st.notes.push(format!("websocket keep-alive burst ({} mode): {sent} sent, {handed} handed over, {replies} replies seen by the peer", mode_tag(compressed)));
       } }
+    // ... and a lock-step WebSocket peer whose 148-byte messages keep straddling the end of the receive buffer (the adaptor hands out a message in two parts)
+    { let iort = tokio::runtime::Builder::new_multi_thread().worker_threads(2).enable_all().build().unwrap();
+      for compressed in [true, false] { let rounds = if a.thorough() { 1500 } else { 300 };
+        let (sent, handed, replies, done) = crate::c20::ws_lockstep_case(&iort, compressed, rounds, None); st.evaluations += sent as u64;
+        if done != rounds || handed != sent || replies != sent { st.fail(format!("[C07 websocket] lock-step peer: round {done} of {rounds} never completed: {sent} keep-alives sent in 37-frame messages, {handed} handed to the caller, {replies} replies received"), format!("wslock {} {rounds}", mode_tag(compressed))); }
+        st.bump("lock-step websocket sessions"); } }
     { let c1 = crate::conv::sync_conversations("C07", a, &mut rng, "ka", &mut st, &mut out); let c2 = crate::conv::async_conversations("C07", a, &mut rng, &mut st, &mut out); st.distinct_nontrivial += (c1.distinct.len() + c2.distinct.len()) as u64; }
     crate::c08::keepalive_sessions("C07", a, &mut st);
     // connections made by the builder (whatever it wraps the socket in): the reply leaves although the caller never writes
@@ -468,6 +492,7 @@ pub fn run_c06(a: &Args) {
             Some((r, ok)) => if shut || !ok || w != want { st.fail(format!("[C06 {}] after the reads {:?} (the peer closed its sending side) a write {} and the transport received {} instead of the frame {}{}", if imp == "B" { "blocking" } else { "tokio" }, r, if ok { "succeeded" } else { "FAILED" }, hex(&w), hex(&want), if shut { "; the connection shut the write half down itself" } else { "" }), id); },
         }
     } } }
+    reply_failure_cases("C06", &rt, &mut st);
     // UDP as the transport: a frame handed to write reaches the socket complete and contiguous, i.e. as ONE datagram, at every frame size
     { let iort = crate::c08::io_runtime();
       for compressed in [true, false] { for imp in ["B", "A"] { let (n, w) = crate::c08::all_sizes_written(imp, &iort, compressed); st.evaluations += n as u64; if let Some(w) = w { st.fail(format!("[C06 udp {}] {w}", if imp == "B" { "blocking" } else { "tokio" }), format!("udpsizes {imp} {}", mode_tag(compressed))); } st.add("udp writes of every frame size", n as u64); } } }
